@@ -172,6 +172,7 @@ pub fn check(rep: &Report) {
     let dev = if t { 3 } else { 2 };
     let full = std::sync::atomic::AtomicU64::new(0);
     jobs.par_iter().for_each(|(g, ka, kb)| {
+        crate::engine::crumb::set_job(&format!("C04 grid={g:?} ka={ka} kb={kb}"));
         let mut st = Stats::default();
         let mut local = vec![];
         let est = estimate_product(|ch| run_case(rep, ch, g, *ka, *kb, &mut vec![], true));
@@ -183,6 +184,7 @@ pub fn check(rep: &Report) {
         }
         rep.cases_bulk(&local);
         stats.lock().unwrap().merge(&st);
+        crate::engine::crumb::clear();
     });
     let st = stats.lock().unwrap();
     rep.add_states(st.nodes, st.edges);
